@@ -90,6 +90,24 @@ MUTANTS = [
      "        self.pos_current_.reset(0.0)\n        self.neg_current_.reset(0.0)", "        self.pos_current_.reset(0.0)"),
     ("syn_deltaplus_inject_dropped_when_spike", "C04", 3000, "inferno/neural/synapses/current.py",
      "        self.current = sum((inputs[0] * (self.spike_charge / self.dt), *inputs[1:]))", "        self.current = sum((inputs[0] * (self.spike_charge / self.dt), *[i * (inputs[0] == 0) for i in inputs[1:]]))"),
+    ("lat_weight_setter_unmasked", "C05", 2000, "inferno/neural/connections/linear.py",
+     "        WeightBiasDelayMixin.weight.fset(self, value * self.mask)", "        WeightBiasDelayMixin.weight.fset(self, value if value.dim() == 2 and value.shape[0] > 3 else value * self.mask)"),
+    ("lat_delay_setter_unmasked", "C05", 2000, "inferno/neural/connections/linear.py",
+     "        WeightBiasDelayMixin.delay.fset(self, value * self.mask)", "        WeightBiasDelayMixin.delay.fset(self, value)"),
+    ("conv_unfold_ignores_dilation_int", "C05", 2000, "inferno/neural/connections/conv.py",
+     "            return F.unfold(\n                data.to(dtype=self.weight.dtype),\n                self.kernel,\n                dilation=self.dilation,", "            return F.unfold(\n                data.to(dtype=self.weight.dtype),\n                self.kernel,\n                dilation=1,"),
+    ("direct_bias_scaled", "C05", 2000, "inferno/neural/connections/linear.py",
+     "            res = res * self.weight + self.bias\n", "            res = (res + self.bias) * self.weight\n"),
+    ("conv_bias_per_position", "C05", 2000, "inferno/neural/connections/conv.py",
+     "            return res + ein.rearrange(self.bias, \"f -> 1 f 1 1\")", "            return res + ein.rearrange(self.bias, \"f -> 1 f 1 1\") * (res != 0)"),
+    ("dense_delayed_uses_present", "C06", 2000, "inferno/neural/base.py",
+     "        if self.delayedby:\n            return self.synapse.current_at(self.selector)", "        if self.delayedby and self.synapse.delay > 2 * self.synapse.dt:\n            return self.synapse.current_at(self.selector)"),
+    ("conv_selector_kernel_transposed", "C06", 2000, "inferno/neural/connections/conv.py",
+     "        return ein.rearrange(delays, \"f c h w -> 1 (c h w) 1 f\").expand(", "        return ein.rearrange(delays, \"f c h w -> 1 (c w h) 1 f\").expand("),
+    ("direct_delayed_ignores_selector_batch", "C06", 2000, "inferno/neural/connections/linear.py",
+     "            res = ein.rearrange(self.syncurrent, \"b n 1 -> b n\")", "            res = ein.rearrange(self.syncurrent, \"b n 1 -> b n\")[:1].expand(res.shape[0], -1)"),
+    ("synspike_uses_current_selector_floor", "C06", 2000, "inferno/neural/base.py",
+     "            return self.synapse.spike_at(self.selector)", "            return self.synapse.spike_at(self.selector.floor())"),
     ("resize_keeps_head", "C13", 3000, INFRA,
      "            slices[dim] = slice(tensor.shape[dim] - size, None)\n            return tensor[*slices]", "            slices[dim] = slice(None, size)\n            return tensor[*slices]"),
     ("resize_no_align", "C13", 3000, INFRA,
